@@ -9,6 +9,7 @@ import (
 	"testing"
 	"testing/synctest"
 	"time"
+	"verif/h/vsel"
 
 	"github.com/nats-io/nats.go"
 	"github.com/simpleiot/simpleiot/client"
@@ -290,6 +291,9 @@ func c13PointsBody(t *testing.T, nBatches int, twoPoint bool, storedFlags ...boo
 					rule.Conditions[i].Active = condActive[i]
 				}
 			}
+			// the rule client's select: with several ready cases the first in source order is taken (not a random one)
+			vsel.SetHook(func(ready []int) int { return x.Deviate(len(ready), "rule client select") })
+			defer vsel.SetHook(nil)
 			g := c13Start(rule)
 			x.Logf("rule: %s (stored flags: rule %v, conditions %v)", strings.Join(names, " AND "), ruleActive, condActive)
 			for b := 0; b < nBatches; b++ {
@@ -398,6 +402,9 @@ func c13SchedBody(t *testing.T, steps int) mc.Body {
 		var out mc.Outcome
 		leak := bubble(t, func() {
 			start := time.Now()
+			// the rule client's select: with several ready cases the first in source order is taken (not a random one)
+			vsel.SetHook(func(ready []int) int { return x.Deviate(len(ready), "rule client select") })
+			defer vsel.SetHook(nil)
 			g := c13Start(c13Rule(cs))
 			condActive := make([]bool, len(cs))
 			ruleActive := false
